@@ -7,7 +7,7 @@ import "github.com/oasisprotocol/curve25519-voi/internal/verif"
 // C08: field arithmetic on secret operands: no branch condition, memory index, division operand or
 // variable-time call depends on the secret limbs (two-safety at every leak site of the real code).
 //
-//verif:ob prop=C08 name=ct_field_kernels mode=bv tags=purego,force32bit ct=1
+//verif:ob prop=C08,C18 name=ct_field_kernels mode=bv tags=purego,force32bit ct=1 sharedro=1
 func vh_C08_field() {
 	verif.Secret("a")
 	verif.Secret("b")
